@@ -34,6 +34,16 @@ function thrower() { throw new TypeError("tt" + arguments.length); }
 function throwarg(x) { throw x; }
 var o = {rep: rep, inner: {rep: rep}, Ctor: Ctor, notfn: 5, thrower: thrower, nul: null};
 var bound = rep.bind(o, 9);
+// callees whose names collide with what Otto.Call parses out of its source text: they start with the
+// letters n-e-w (and a function of the remaining name exists too), or use $ _ and non-ASCII letters
+function c15named(who) { return function () { return {who: who, t: c15kind(this), n: arguments.length, a: c15args(arguments)}; }; }
+var newPoint = c15named("newPoint"), Point = c15named("Point"), newline = c15named("newline"), line = c15named("line");
+var news = {latest: c15named("news.latest")}, s = {latest: c15named("s.latest")};
+var newest = [c15named("newest[0]")], est = [c15named("est[0]")];
+var new$ = c15named("new$"), $ = c15named("$"), new_ = c15named("new_"), _ = c15named("_"), newCtor = c15named("newCtor");
+var New = c15named("New"), NEW = c15named("NEW"), renew = c15named("renew"), knew = c15named("knew"), $rep = c15named("$rep"), _rep = c15named("_rep");
+var \u00e9t\u00e9 = c15named("\u00e9t\u00e9"), new\u00e9 = c15named("new\u00e9"), \u00e9 = c15named("\u00e9");
+o.newer = {rep: c15named("o.newer.rep")}; o["new"] = c15named("o.new"); o["new thing"] = c15named("o[new thing]");
 function c15try(f) {
   try { return ["ok", c15show(f(), 6)]; }
   catch (e) { return ["throw", e instanceof Error ? e.name : "primitive", c15show(e, 2)]; }
@@ -55,8 +65,28 @@ var (
 	objectNames  = []string{"rep", "rep", "thrower", "notfn", "missing", "Ctor", "nul", "max", "concat", "toString", "hasOwnProperty"}
 	ottoSources  = []string{"rep", "o.rep", "o['rep']", "o.inner.rep", "(o.rep)", "(0,o.rep)", "bound", "rep.bind(o,9)", "Ctor", "o.Ctor", "CtorRet", "CtorPrim", "thrower", "throwarg", "o.thrower",
 		"o.notfn", "missing", "o.missing", "Math.max", "String.prototype.toUpperCase", "[ 1, 2, 3, undefined, 4 ].concat", "Object", "(function(){return c15kind(this)})", "(function(a,b){return [this===G,a,b]})"}
-	newSources = []string{"Ctor", "o.Ctor", "CtorRet", "CtorPrim", "Object", "rep", "thrower", "o.notfn", "missing", "(function(a){this.a=a})"}
+	// names and paths that collide with the "new " prefix Otto.Call looks for, odd identifier characters
+	collidingSources = []string{"newPoint", "Point", "newline", "line", "news.latest", "s.latest", "newest[0]", "est[0]", "new$", "$", "new_", "_", "newCtor", "New", "NEW", "renew", "knew",
+		"$rep", "_rep", "\u00e9t\u00e9", "new\u00e9", "\u00e9", "o.newer.rep", "o['new']", "o[\"new thing\"]", "o.new", "(newPoint)", "(0,news.latest)", "newPoint.bind(o,9)"}
+	// "new" followed by something else than one space is not the documented constructor form: the source is an
+	// expression whose value is called; "new" / "new " alone denote nothing callable
+	oddNewSources = []string{"new\tCtor", "new\nCtor", "new\u00a0Ctor", "new\tnewPoint", "new(Ctor)", "new", "new ", "new  ", "newPoint ", " newPoint", " new Ctor"}
+	newSources = []string{"newPoint", "news.latest", "newest[0]", "new$", "newCtor", " Ctor", "\tCtor", " newPoint", "o.newer.rep", "o['new']", "(Ctor)", "New","Ctor", "o.Ctor", "CtorRet", "CtorPrim", "Object", "rep", "thrower", "o.notfn", "missing", "(function(a){this.a=a})"}
 )
+
+// isOddNew: the source starts with the keyword new but not with the documented prefix "new " + callee
+func isOddNew(src string) bool {
+	t := strings.TrimLeft(src, " ")
+	if !strings.HasPrefix(t, "new") {
+		return false
+	}
+	rest := t[3:]
+	if rest == "" || strings.TrimSpace(rest) == "" {
+		return true
+	}
+	r := []rune(rest)[0]
+	return r == '\t' || r == '\n' || r == 0xa0 || r == '(' || (t != src && r == ' ')
+}
 
 // built-ins whose first step rejects an undefined/null this value
 var thisUsingBuiltin = map[string]bool{"String.prototype.toUpperCase": true, "Array.prototype.concat": true, "[ 1, 2, 3, undefined, 4 ].concat": true}
@@ -94,7 +124,14 @@ func genCall(t *rapid.T) callCase {
 		if c.New {
 			c.Fn = rapid.SampledFrom(newSources).Draw(t, "source")
 		} else {
-			c.Fn = rapid.SampledFrom(ottoSources).Draw(t, "source")
+			switch k := rapid.IntRange(0, 9).Draw(t, "pool"); {
+			case k < 5:
+				c.Fn = rapid.SampledFrom(ottoSources).Draw(t, "source")
+			case k < 9:
+				c.Fn = rapid.SampledFrom(collidingSources).Draw(t, "colliding")
+			default:
+				c.Fn = rapid.SampledFrom(oddNewSources).Draw(t, "oddnew")
+			}
 		}
 		c.This = rapid.SampledFrom(append([]string{"nil", "nil", "nil"}, thisForms...)).Draw(t, "this")
 	}
@@ -290,6 +327,15 @@ func checkCall(c callCase) harness.Outcome {
 			switch {
 			case c.New:
 				equiv = "new " + c.Fn + "(" + argList + ")"
+			case isOddNew(c.Fn): // not the documented "new " form: the value of the expression is called
+				equiv = "(" + c.Fn + ")(" + argList + ")"
+				if c.This != "nil" {
+					sep := ", "
+					if argList == "" {
+						sep = ""
+					}
+					equiv = "(" + c.Fn + ").call(" + thisExpr + sep + argList + ")"
+				}
 			case c.This == "nil":
 				equiv = c.Fn + "(" + argList + ")"
 			default:
@@ -314,7 +360,7 @@ func checkCall(c callCase) harness.Outcome {
 		}
 		return o
 	}
-	er := harness.Run(vm, "c15try(function(){ return "+equiv+"; })")
+	er := harness.Run(vm, "c15try(function(){ return eval("+m15.JSStr(equiv)+"); })")
 	if er.Panicked || er.Err != nil {
 		return fail("the equivalent script call %s could not be evaluated: %v %v", equiv, er.Err, er.Panic)
 	}
@@ -327,7 +373,9 @@ func checkCall(c callCase) harness.Outcome {
 		if !res.IsUndefined() {
 			return fail("returned a defined value together with the error %v", err)
 		}
-		if name := str(prop(er.Value, "1")); name != "primitive" && harness.ErrName(err) != name {
+		if name := str(prop(er.Value, "1")); name == "SyntaxError" || isOddNew(c.Fn) {
+			o.Classes = append(o.Classes, "not-a-callee-expression") // only "an error" is demanded
+		} else if name != "primitive" && harness.ErrName(err) != name {
 			return fail("returned error %q, but %s throws a %s", err, equiv, name)
 		}
 		return o
